@@ -3,11 +3,11 @@
 From Coq Require Import List ZArith NArith Bool Lia.
 From RecordUpdate Require Import RecordSet.
 From PC.Base Require Import Assoc.
-From PC.Sup Require Import Model Monitors Check Tactics Sim ObsFacts Effects RelCore LemC02 RelC02defs RelC02f.
+From PC.Sup Require Import Model Monitors Tactics Sim ObsFacts Effects RelCore LemC02 RelC02defs RelC02f.
 Import ListNotations RecordSetNotations.
 
-(* the window hypothesis of the full theorem: F20/F21 (commit), F37 (sdlag), F25 (dup), F38 (zombie) *)
-Definition W_C02 (o : obs) : bool := W4 o.
+(* the window hypothesis of the full theorem: F20/F21 (commit), F37 (sdlag), F25 (dup) *)
+Definition W_C02 (o : obs) : bool := W3 o.
 (* ... and of the theorem about launches, back-off and giving up only: F20/F21, F37 *)
 Definition W_C02_core (o : obs) : bool := W2 o.
 
@@ -21,13 +21,16 @@ Context (cs : amap pconf).
 Record R2 (s : sys) (o : obs) : Prop := mkR2 {
   r2_rc : Rc cs s o;
   r2_rt : Rt s o;
-  r2_rd : Rd o;
+  r2_ro : Ro o;
+  r2_rg : Rg s;
+  r2_rz : Rz s o;
+  r2_rs : Rs s o;
   r2_p2 : P2all s o
 }.
 
 Lemma R2_init ord : R2 (init cs ord) (obs0 cs).
 Proof.
-  constructor; [apply Rc_init|apply Rt_init|apply Rd_init|].
+  constructor; [apply Rc_init|apply Rt_init|apply Ro_init|apply Rg_init|apply Rz_init|apply Rs_init|].
   intros j x xo H. cbn in H. discriminate.
 Qed.
 
@@ -72,10 +75,10 @@ Qed.
 
 (* the monitor's checks, in a state related to the observer *)
 Lemma mon_ok s o th e s' : Rc cs s o -> P2all s o -> step_core s th e = Some s' ->
-  mon_C02 cs o (th, e) = true \/ W4 o = true.
+  mon_C02 cs o (th, e) = true \/ W3 o = true.
 Proof.
-  intros HRc HP H. destruct (W4 o) eqn:EW; [now right|left].
-  pose proof (W4_W2 _ EW) as EW2.
+  intros HRc HP H. destruct (W3 o) eqn:EW; [now right|left].
+  pose proof (W3_W2 _ EW) as EW2.
   unfold mon_C02. cbn [fst snd].
   destruct e; try (cbn; repeat match goal with |- context[match ?x with _ => _ end] => destruct x end; reflexivity).
   - (* ELaunch *)
@@ -85,7 +88,7 @@ Proof.
       destruct (own_th cs _ _ _ _ _ HRc E E0) as (Et & xo & Exo); cbn [ev_inst]; rewrite Et, (oi_get_some _ _ _ Exo);
       destruct (conf_of_inst _ _ _ _ _ HRc E0 Exo) as (Hcf & Hl & _); rewrite Hcf, Hl;
       pose proof (HP _ _ _ E0 Exo) as HPx end.
-    destruct HPx as [Pcommit Pstop Pexited Palive Pcode Pdecided Prelaunch Pgaveup Prestarts Ppre Pfstopped Prunctx Pendst Pgone Pnostop Pstatus].
+    destruct HPx as [Pcommit Pstop Pexited Palive Pcode Pdecided Prelaunch Pgaveup Prestarts Ppre Pfstopped Prunctx Pendst Pgone Pnostop Pstatus Ps1 Pendst2].
     match goal with E : pc _ = IStateSet |- _ => rewrite E in * end.
     destruct (Nat.eqb_spec (launches i2) 0) as [|Hl0]; [reflexivity|].
     destruct Prelaunch as (c & Hc & (Hpol & Hb) & Hel); [reflexivity|lia|].
@@ -136,7 +139,7 @@ Proof.
       destruct (own_th cs _ _ _ _ _ HRc E E0) as (Et & xo & Exo); cbn [ev_inst]; rewrite Et, (oi_get_some _ _ _ Exo);
       destruct (conf_of_inst _ _ _ _ _ HRc E0 Exo) as (Hcf & Hl & _); rewrite Hcf, Hl;
       pose proof (HP _ _ _ E0 Exo) as HPx end.
-    destruct HPx as [Pcommit Pstop Pexited Palive Pcode Pdecided Prelaunch Pgaveup Prestarts Ppre Pfstopped Prunctx Pendst Pgone Pnostop Pstatus].
+    destruct HPx as [Pcommit Pstop Pexited Palive Pcode Pdecided Prelaunch Pgaveup Prestarts Ppre Pfstopped Prunctx Pendst Pgone Pnostop Pstatus Ps1 Pendst2].
     match goal with E : pc _ = IStateSet |- _ => rewrite E in * end.
     destruct (Nat.eqb_spec (launches i2) 0) as [|Hl0]; [reflexivity|].
     destruct Prelaunch as (c & Hc & (Hpol & Hb) & Hel); [reflexivity|lia|].
@@ -176,15 +179,19 @@ Qed.
 Lemma R2_step s o te s' : R2 s o -> step s te = Some s' ->
   R2 s' (obs_step cs o te) /\ (mon_C02 cs o te = true \/ W_C02 o = true) /\ (mon_C02_core cs o te = true \/ W_C02_core o = true).
 Proof.
-  destruct te as [th e]. intros [HRc HRt HRd HP] H.
+  destruct te as [th e]. intros [HRc HRt HRo HRg HRz HRs HP] H.
   pose proof (Rc_step cs _ _ _ _ _ HRc H) as HRc'.
   unfold step in H. cbn [fst snd] in H.
   assert (HRc0 : Rc cs (flush th s) o) by (eapply Rc_sys_same; [exact HRc|apply sys_same_flush]).
   pose proof (Rt_flush th _ _ HRt) as HRt0. pose proof (P2all_flush th _ _ HRt HP) as HP0.
+  pose proof (Rg_flush th _ HRg) as HRg0. pose proof (Rz_flush th _ _ HRz) as HRz0. pose proof (Rs_flush th _ _ HRs) as HRs0.
   split; [constructor|split].
   - exact HRc'.
   - eapply Rt_step_core; eauto.
-  - apply Rd_step; [|exact HRd]. eapply fresh_newinst; eauto.
+  - apply Ro_step; [|exact HRo]. eapply fresh_newinst; eauto.
+  - eapply Rg_step_core; eauto.
+  - eapply Rz_step_core; eauto.
+  - eapply Rs_step_core; eauto.
   - eapply P2all_step_core; eauto.
   - eapply mon_ok; eauto.
   - eapply mon_ok_core; eauto.
@@ -198,7 +205,7 @@ Proof.
   intros cs ord evs s Hacc HW. unfold holds_C02.
   eapply (sim_holds_partial cs ord (R2 cs) (mon_C02 cs) W_C02 (R2_init cs ord)); eauto.
   - intros s0 o e s1 HR Hs. destruct (R2_step cs _ _ _ _ HR Hs) as (A & B & _). auto.
-  - intros o e. apply W4_mono.
+  - intros o e. apply W3_mono.
 Qed.
 
 Theorem C02_core : forall cs ord evs s,
@@ -234,6 +241,28 @@ Lemma C02_refuted : exists cs ord evs s,
 Proof.
   exists (ex_cfg PAlways 0), false, ex_bad.
   destruct (accept (init (ex_cfg PAlways 0) false) ex_bad) as [s|] eqn:E; [|vm_compute in E; discriminate].
+  exists s. repeat split; vm_compute; reflexivity.
+Qed.
+
+(* the dup window is needed too: StartProcess creates and launches instance 1 of a process with a readiness probe; Run()'s
+   spawn loop then creates instance 2 of the same name (F25) and writes Pending; a fatal probe result makes the internal
+   stop find "Pending" on the launched instance 1 and record a stop request without isStopped; the command exits and the
+   restart decision is positive.  Only w_dup is raised (not commit, sdlag, zombie). *)
+Definition ex_cfg_probe : amap pconf := [(1%N, mkConf [] PAlways 0 0 false false true false false false false)].
+Definition ex_dup : list (tid * event) :=
+  [(30, EApiBegin (OpStart 1)); (30, ERegGet 1 None); (30, EStartChecked 1 false); (30, ENewInst 1 1); (30, EState 1 SPending);
+   (30, ERegAdd 1 1); (30, ESpawn 1 1); (30, EApiReturn true);
+   (20, EBegin 1); (20, ERunChecked false); (20, EStarted); (20, EState 1 SRunning); (20, ELaunch true);
+   (10, EApiBegin OpRun); (10, ENewInst 2 1); (10, EState 2 SPending);
+   (40, EProbe 1 false true); (40, EStopEnter 1 false); (40, EStopPending 1);
+   (0, ECmdExit 1 0%Z); (20, EWaitReturn 0%Z); (20, EExitCode 0%Z); (20, ERestartDecision true)]%N.
+
+Lemma C02_dup_needed : exists cs ord evs s,
+  accept (init cs ord) evs = Some s /\ holds_C02 cs evs = false /\
+  w_commit (final_obs cs evs) = false /\ w_sdlag (final_obs cs evs) = false /\ w_zombie (final_obs cs evs) = false.
+Proof.
+  exists ex_cfg_probe, false, ex_dup.
+  destruct (accept (init ex_cfg_probe false) ex_dup) as [s|] eqn:E; [|vm_compute in E; discriminate].
   exists s. repeat split; vm_compute; reflexivity.
 Qed.
 
